@@ -41,7 +41,7 @@ class MarkovCheck(object):
         cases = []
         q = tier == 'quick'
         # --- e2 and fast: random
-        n_rand = 1500 if q else 40000
+        n_rand = 1500 if q else 100000
         for k in range(n_rand):
             cs = case_seed(seed, self.PID, k)
             r = random.Random(cs)
@@ -81,7 +81,7 @@ class MarkovCheck(object):
                                   'I0': [i for i in range(n) if assign[i] == 'I'], 'R0': [i for i in range(n) if assign[i] == 'R'],
                                   'tmin': 0, 'tmax': 'inf', 'seed': cs})
         # --- e6
-        runs = 20000 if q else 300000
+        runs = 20000 if q else 500000
         n_cfg = 10 if q else 24
         small = [g for g in gen.atlas(5, 2) if len(g['edges']) >= 1]
         for k in range(n_cfg):
